@@ -8,7 +8,8 @@
 (*   inown   the input has its metadata from the start; otherwise it is     *)
 (*           derived from the component's own output (FromOutput rule)      *)
 (*   outown  the output has its metadata from the start; otherwise it is    *)
-(*           derived from the input (FromInput rule)                        *)
+(*           derived from the input (FromInput rule) or, with oprov, passed *)
+(*           by the component itself to every try_connect call              *)
 (*   pull    the input is pulled initially                                  *)
 (*   data    when the component can provide its initial output data:        *)
 (*           "imm" at once | "pulled" after its initial pull | "ininfo"     *)
@@ -58,7 +59,8 @@ Call(cfg, s, c) ==
         dC1   == s.dC[c] \/ (k.hasout /\ ~s.outD[c] /\ DataCond(k, s, c))
         \* transfer rules, evaluated on what earlier calls achieved
         inC1  == s.inC[c] \/ (k.hasin /\ ~k.inown /\ ~s.inX[c] /\ k.hasout /\ s.outX[c])
-        outC1 == s.outC[c] \/ (k.hasout /\ ~k.outown /\ ~s.outP[c] /\ k.hasin /\ s.inX[c])
+        \* (oprov: the component itself supplies the output metadata with every call)
+        outC1 == s.outC[c] \/ (k.hasout /\ ~k.outown /\ ~s.outP[c] /\ (k.oprov \/ (k.hasin /\ s.inX[c])))
         \* input metadata exchange
         inX1  == s.inX[c] \/ (k.hasin /\ (k.inown \/ inC1) /\ s.outP[k.src])
         dIn   == inX1 /\ ~s.inX[c]
@@ -87,7 +89,7 @@ Call(cfg, s, c) ==
 Items(cfg) == {<<c, f>> : c \in Comps(cfg), f \in {"inX", "inD", "outP", "outX", "outD"}}
 Derivable(cfg, F, it) ==
   LET c == it[1] k == cfg.comps[c] IN
-  CASE it[2] = "outP" -> k.hasout /\ (k.outown \/ (k.hasin /\ <<c, "inX">> \in F))
+  CASE it[2] = "outP" -> k.hasout /\ (k.outown \/ k.oprov \/ (k.hasin /\ <<c, "inX">> \in F))
     [] it[2] = "inX"  -> k.hasin /\ (k.inown \/ (k.hasout /\ <<c, "outX">> \in F)) /\ <<k.src, "outP">> \in F
     [] it[2] = "outX" -> k.hasout /\ <<c, "outP">> \in F /\ \A d \in Targets(cfg, c) : <<d, "inX">> \in F
     [] it[2] = "outD" -> k.hasout /\ <<c, "outP">> \in F /\ <<c, "outX">> \in F /\
